@@ -36,18 +36,20 @@ INV_P = ['NcNoLeak', 'NcDepsExact', 'NcAligned', 'NcUpperAll', 'NcScoredOnce', '
 
 
 def base_cfg(nr, nc, *, gens='NoGens', perml=0, kmax=3, methods='MOne', mode='value', valmax=0, candmax=0,
-             masks='MaskNone', bys='BySubj', thin_s=1, thin_g=1, xforms='XfNone', byfilter='AnyBy', variants='Var1'):
+             masks='MaskNone', bys='BySubj', thin_s=1, thin_g=1, xforms='XfNone', byfilter='AnyBy', variants='Var1',
+             cvcat='NoCat'):
     return '\n'.join([
         'CONSTANTS', f'  NR = {nr}', f'  NC = {nc}', '  MaxObj = 1', '  MaxRows = 9', '  MaxPats = 9', '  Depth = 0',
         '  NanPairs <- NanPairsNone', '  ArgLevel = 2', '  EmitMod = 1', '  Ops <- NoOps', f'  Gens <- {gens}',
         f'  PermLevel = {perml}', f'  KMax = {kmax}', f'  Methods <- {methods}', f'  Mode = "{mode}"',
         f'  ValMax = {valmax}', f'  CandMax = {candmax}', f'  Masks <- {masks}', f'  GroupBys <- {bys}',
         f'  ThinS = {thin_s}', f'  ThinG = {thin_g}', f'  Xforms <- {xforms}', f'  ByFilter <- {byfilter}',
-        f'  SrcVariants <- {variants}']) + '\n'
+        f'  SrcVariants <- {variants}', f'  CvCat <- {cvcat}']) + '\n'
 
 
 def vcfg(nr, nc, **kw):
-    return base_cfg(nr, nc, mode='value', **kw) + 'INIT VInit\nNEXT NcNext\n' + \
+    init = 'VInitCv' if kw.get('cvcat', 'NoCat') != 'NoCat' else 'VInit'
+    return base_cfg(nr, nc, mode='value', **kw) + f'INIT {init}\nNEXT NcNext\n' + \
         ''.join(f'INVARIANT {i}\n' for i in INV_V) + 'CHECK_DEADLOCK FALSE\n'
 
 
@@ -79,7 +81,7 @@ def run_value(ctx, name, nr, nc, nrand, **kw):
         raise MachineryError(f'{name}: TLC emitted nothing')
     groups = {}
     for o in r.iter_emitted():
-        key = (o['by'], o['meth'], json.dumps(o['val']))
+        key = (json.dumps(o['case']) if o.get('api') == 'cv' else '', o['by'], o['meth'], json.dumps(o['val']))
         gr = groups.setdefault(key, {'rec': None, 'cands': [], 'xfs': []})
         if o['t'] == 'stack':
             gr['rec'] = o
@@ -95,7 +97,7 @@ def run_value(ctx, name, nr, nc, nrand, **kw):
     jobs = [(groups[k]['rec'], groups[k]['cands'], groups[k]['xfs'], nc,
              [ctx.seed, i], nrand) for i, k in enumerate(keys)]
     summary = {'stacks': 0, 'pairs': 0, 'xf': 0, 'max_cand_minus_upper': -np.inf, 'max_lower_minus_upper': -np.inf,
-               'rho_a_stacks': 0}
+               'rho_a_stacks': 0, 'degenerate_zero_pool': 0}
     with mp.Pool(NPROC) as pool:
         for res in pool.imap_unordered(_stack_job, jobs, chunksize=8):
             if res[0] == 'machinery':
@@ -106,6 +108,7 @@ def run_value(ctx, name, nr, nc, nrand, **kw):
             summary['pairs'] += ncand
             summary['xf'] += nxf
             summary['rho_a_stacks'] += meth == 'rho-a'
+            summary['degenerate_zero_pool'] += bool(stats['degenerate'])
             summary['max_cand_minus_upper'] = max(summary['max_cand_minus_upper'], stats['margin'])
             summary['max_lower_minus_upper'] = max(summary['max_lower_minus_upper'], stats['lo_minus_up'])
             for key, what, case in out:
@@ -117,7 +120,7 @@ def run_value(ctx, name, nr, nc, nrand, **kw):
     for k in ('max_cand_minus_upper', 'max_lower_minus_upper'):
         summary[k] = None if not np.isfinite(summary[k]) else float(summary[k])
     ctx.extra.setdefault('value_runs', {})[name] = summary
-    if summary['pairs'] == 0 and 'subj' in kw.get('bys', 'BySubj').lower():
+    if summary['pairs'] == 0 and 'subj' in kw.get('bys', 'BySubj').lower() and kw.get('cvcat', 'NoCat') == 'NoCat':
         raise MachineryError(f'{name}: no (stack, candidate) pair was emitted')
     return summary
 
@@ -198,9 +201,14 @@ def run_traces(ctx, ntr):
             ctx.violation(f"C07/trace/{kind}/{t['error']}", f"recorded call cannot be assembled: {t.get('msg', t['error'])}",
                           {'seed': seed, 'kind': kind, 'hdr': t['hdr']})
             continue
+        if t.get('skip'):
+            ctx.unsupported_case(f"trace/{t['skip']}", 'two different pools returned bit-identical RDMs; deps cannot be read off')
+            continue
         traces.append({'hdr': t['hdr'], 'ev': t['ev']})
         meta.append((seed, kind))
         ctx.count(len(t['ev']))
+    if len(traces) < 0.7 * len(recs):
+        raise MachineryError(f'only {len(traces)} of {len(recs)} recorded calls could be assembled')
     # binding self-test: corrupt recorded values of accepted-looking traces; they must be rejected
     corrupt = []
     for what in ('ret', 'deps', 'cand'):
@@ -268,15 +276,17 @@ def run(ctx):
     nrand = 200
     if thorough:
         run_value(ctx, 'v_2x3', 2, 3, nrand, methods='MAll', valmax=3, candmax=6, xforms='XfAll')
-        run_value(ctx, 'v_3x3', 3, 3, nrand, methods='MAll', valmax=2, candmax=4, bys='ByBoth', thin_s=1, thin_g=4)
+        run_value(ctx, 'v_3x3', 3, 3, nrand, methods='MAll', valmax=2, candmax=4, bys='ByBoth', thin_s=1, thin_g=5)
         run_value(ctx, 'v_mask_a', 2, 4, nrand, methods='MAll', valmax=2, candmax=2, masks='Mask4a', xforms='XfFew')
-        run_value(ctx, 'v_mask_b', 2, 4, nrand, methods='MAll', valmax=2, candmax=2, masks='Mask4b', thin_s=16)
+        run_value(ctx, 'v_mask_b', 2, 4, nrand, methods='MAll', valmax=2, candmax=2, masks='Mask4b', thin_s=13)
         run_value(ctx, 'v_3x4_mask', 3, 4, nrand, methods='MAll', valmax=1, candmax=2, masks='Mask4a', bys='ByBoth',
-                  thin_s=2, thin_g=8)
+                  thin_s=3, thin_g=7)
     else:
-        run_value(ctx, 'v_2x3', 2, 3, nrand, methods='MAll', valmax=3, candmax=4, thin_s=6, xforms='XfFew')
-        run_value(ctx, 'v_3x3', 3, 3, nrand, methods='MAll', valmax=2, candmax=3, bys='ByBoth', thin_s=8, thin_g=24)
-        run_value(ctx, 'v_mask_a', 2, 4, nrand, methods='MAll', valmax=2, candmax=2, masks='Mask4a', thin_s=8)
+        run_value(ctx, 'v_2x3', 2, 3, nrand, methods='MAll', valmax=3, candmax=4, thin_s=7, xforms='XfFew')
+        run_value(ctx, 'v_3x3', 3, 3, nrand, methods='MAll', valmax=2, candmax=3, bys='ByBoth', thin_s=7, thin_g=23)
+        run_value(ctx, 'v_mask_a', 2, 4, nrand, methods='MAll', valmax=2, candmax=2, masks='Mask4a', thin_s=11)
+        run_value(ctx, 'v_cv_3x4', 3, 4, nrand, methods='MAll', valmax=1, thin_s=397, cvcat='CvCat34', gens='GensAll',
+                  perml=2)
     ctx.exhaustive = thorough
     if thorough:
         run_proto(ctx, 'p_3x4', 3, 4, gens='GensAll', variants='Var13', kmax=3)
